@@ -7,6 +7,8 @@ expression and the data alone.
 
   numeric response        the column, unchanged
   categorical response    one indicator column per level, levels sorted / in declared order
+                          (a column, or a boxing call C(v …) / T(v …) / S(v …) over a column; numbers
+                          sort numerically; `levels=` declares the order)
   y[level]                a single 0/1 column, 1 exactly where y equals the level
   prop(y, n)              two columns: successes, trials (a constant is broadcast)
 -/
@@ -25,6 +27,96 @@ def levelOrder (xs : List (Option Level)) (declared : Option (Bool × List Strin
   match declared with
   | some (true, cats) => some (cats.map Level.s)
   | _ => sortLevels (xs.filterMap id)
+
+/-! ### a categorical response written as a boxing call: `C(v …)`, `T(v …)`, `S(v …)`
+
+"One indicator column per level in sorted or declared order" whatever the spelling: the declared
+order is the `levels=` argument of the call or the order of an ordered Categorical (`mkBox` has put
+either into the box), otherwise the levels are sorted — numerically for numbers. -/
+def boxLevelOrder (b : Box) : Option (List Level) :=
+  match b.levels with
+  | some ls => some ls
+  | none => sortLevels (b.data.filterMap id)
+
+/-- `str(x)` of a float level: exact for the dyadic fractions with at most four binary places and a
+moderate magnitude (`2.0`, `-0.5`, `10.25`, `0.0625`); other floats are outside the modelled space -/
+def floatLabel (q : Rat) : Option String :=
+  let places : Option Nat :=
+    if q.den == 1 then some 1 else if q.den == 2 then some 1 else if q.den == 4 then some 2
+    else if q.den == 8 then some 3 else if q.den == 16 then some 4 else none
+  places.bind fun k =>
+    let a := q.num.natAbs
+    if a ≥ 1000000000000 * q.den then none else
+    let ip := a / q.den
+    let fp := (a % q.den) * 10 ^ k / q.den
+    let fs := toString fp
+    let pad := String.ofList (List.replicate (k - fs.length) '0') ++ fs
+    some ((if q < 0 then "-" else "") ++ toString ip ++ "." ++ pad)
+
+/-- `sorted(set(values))` of numbers -/
+def sortRats (xs : List Rat) : List Rat := sortBy (fun a b => decide (a < b)) (dedupL xs)
+
+/-- the data of a boxing call over a FLOAT column without a `levels` argument (`C(v)`, `T(v)`,
+`S(v)`, `C(v, Treatment)`, `T(v, ref)`): the design model keeps integer and string levels only, the
+response specification reads the float column directly -/
+def floatBoxData (env : Env) (resp : Expr) : Option (List Entry) :=
+  match resp with
+  | .call (.variable c) _ as _ =>
+    if c.lexeme == "C" || c.lexeme == "T" || c.lexeme == "S" then
+      match Spec.C06.argExprs as with
+      | (.variable v) :: rest =>
+        if rest.length ≤ 1 && !(rest.any (Spec.C06.isKw "levels")) then
+          match env.frame.col? v.lexeme with
+          | some col => match colVal col with
+            | .vec xs false => some xs
+            | _ => none
+          | none => none
+        else none
+      | _ => none
+    else none
+  | _ => none
+
+/-- class of the finding D33: the response is a boxing call that asks for sum-to-zero coding
+(`S(y)`, `C(y, Sum)`).  The library then returns the full-rank Sum coding (a `mean` column of ones,
+rows of -1 for the omitted level, which is missing from `levels`) instead of one indicator column
+per level. -/
+def classD33 (resp : Expr) : Bool := Spec.C05.sumCodedComponent resp
+
+/-- What the library is recorded to return for a response of class D33 — the full-rank Sum coding
+of the levels in the order the statement prescribes: the row of level `i` of `Sum.code_with_intercept`
+for every observation, `levels` = "mean" followed by the labels without the omitted one.  Only a
+response that deviates from the specification in exactly this way is attributed to the finding. -/
+def d33Coded (idx : List (Option Nat)) (labels : List String) (o : Nat) : M Expected := do
+  let n := labels.length
+  let cm ← sumFull (some (Level.n (Int.ofNat o))) ((List.range n).map (fun i => Level.n (Int.ofNat i)))
+  pure ⟨idx.map (fun x => match x with
+          | some i => (cm.rows.getD i []).map (fun (v : Int) => (some (v : Rat) : Entry))
+          | none => []),
+        some ("mean" :: (labels.take o ++ labels.drop (o + 1))), "categoric"⟩
+
+def d33Returned (env : Env) (resp : Expr) : M Expected := do
+  if !classD33 resp then .error (.unmodelled "not of class D33") else
+  match floatBoxData env resp with
+  | some xs =>
+    let vals := sortRats (xs.filterMap id)
+    let plain := match resp with
+      | .call _ _ as _ => (Spec.C06.argExprs as).length == 1 || (match resp with
+          | .call (.variable c) _ _ _ => c.lexeme == "C" | _ => false)
+      | _ => false
+    match vals.mapM floatLabel, plain with
+    | some labs, true =>
+      d33Coded (xs.map (fun x => x.bind (fun q => indexOf? q vals))) labs (vals.length - 1)
+    | _, _ => .error (.unmodelled "float level label / omitted level")
+  | none => do
+    let (v, _) ← posOnly (evalArg env resp none)
+    match v with
+    | .box b =>
+      match boxLevelOrder b, b.contrast with
+      | some ls, some (.sum om) => do
+        let o ← sumOmitIndex om ls
+        d33Coded (b.data.map (fun x => x.bind (fun l => indexOf? l ls))) (ls.map Level.label) o
+      | _, _ => .error (.unmodelled "not sum coded")
+    | _ => .error (.unmodelled "call response")
 
 def expected (env : Env) (resp : Expr) : M Expected := do
   match resp with
@@ -62,11 +154,28 @@ def expected (env : Env) (resp : Expr) : M Expected := do
         | .vec ss _, .num q _ => pure ⟨ss.map (fun a => [a, some q]), none, "proportion"⟩
         | _, _ => .error (.unmodelled "prop arguments")
       | _ => .error (.unmodelled "prop arity")
-    else do
+    else
+      match floatBoxData env resp with
+      | some xs =>
+        if xs.any Option.isNone then .error (.unmodelled "missing value in categorical data") else
+        let vals := sortRats (xs.filterMap id)
+        match vals.mapM floatLabel with
+        | some labs =>
+          pure ⟨xs.map (fun x => vals.map (fun l => some (if x == some l then (1 : Rat) else 0))),
+                some labs, "categoric"⟩
+        | none => .error (.unmodelled "label of a float level")
+      | none => do
       -- any other call: its value
       let (v, _) ← posOnly (evalArg env resp none)
       match v with
       | .vec xs _ => pure ⟨xs.map (fun x => [x]), none, "numeric"⟩
+      | .box b =>
+        -- a boxed categorical: one indicator column per level, whatever contrast the call names
+        match boxLevelOrder b with
+        | some ls =>
+          pure ⟨b.data.map (fun x => ls.map (fun l => some (if x == some l then (1 : Rat) else 0))),
+                some (ls.map Level.label), "categoric"⟩
+        | none => .error .typeError
       | _ => .error (.unmodelled "call response")
   | .brace .. => do
     let (v, _) ← posOnly (evalArg env resp none)
